@@ -63,10 +63,6 @@ def check(acc, desc, order):
     if set(mapping) != set(nodes):
         acc.violation("ternary", "mapping-keys-wrong", case, f"missing {sorted(set(nodes) - set(mapping))} extra {sorted(set(mapping) - set(nodes))}")
         return False
-    comp = [mapping[n] for n in nodes]
-    if len(set(comp)) != len(comp) or set(comp) & set(nodes):
-        acc.violation("ternary", "companions-not-distinct", case, str(mapping))
-        return False
     for n in nodes:
         if n not in t.graph or mapping[n] not in t.graph:
             acc.violation("ternary", "node-missing-in-result", case, n)
